@@ -3,7 +3,16 @@
 // ---------------------------------------------------------------------------
 fn drive_all<S: Src>(o: &mut Obs, src: &S, cfg: &Cfg) {
     let mut rng = Rng::new(cfg.seed ^ 0xd1ce);
-    let dwarf = load_dwarf(src, false);
+    let mut dwarf = load_dwarf(src, false);
+    // a supplementary file (the same sections) and a populated abbreviations cache
+    dwarf.set_sup(load_dwarf(src, false));
+    group(o, cfg, "units", |o| {
+        let strategy = if cfg.seed % 2 == 0 { read::AbbreviationsCacheStrategy::All } else { read::AbbreviationsCacheStrategy::Duplicates };
+        if cfg.seed % 3 != 0 {
+            let _ = vg!(o, "Dwarf::populate_abbreviations_cache", dwarf.populate_abbreviations_cache(strategy));
+        }
+    });
+    let dwarf = dwarf;
     let lb = (
         src.get("debug_ranges").len().max(src.get("debug_rnglists").len()),
         src.get("debug_loc").len().max(src.get("debug_loclists").len()),
@@ -31,6 +40,7 @@ fn cfg_of(case: &J, addrs: [u64; 3], nbytes: usize) -> Cfg {
     }
     Cfg {
         seed: case["seed"].as_u64().unwrap_or(1),
+        sample: case["seed"].as_u64().unwrap_or(1) % (if big { 2 } else { 4 }),
         only: case["only"].as_array().map(|a| a.iter().filter_map(|x| x.as_str().map(|s| s.to_string())).collect()),
         max_units: case["max_units"].as_u64().map(|x| x as usize).unwrap_or(if big { 2 } else { 6 }),
         max_entries: case["max_entries"].as_u64().map(|x| x as usize).unwrap_or(if big { 60 } else { 400 }),
@@ -77,7 +87,8 @@ fn replay(case: &J) -> J {
     let nbytes: usize = secs.values().map(|v| v.len()).sum();
     let cfg = cfg_of(case, addrs, nbytes);
     let mut mrng = Rng::new(cfg.seed);
-    let base_key = format!("{}|{}|{}|{}|{}", case["base"], case["gseed"], case["sections"], be, cfg.seed % 4);
+    let fvar = cfg.sample;
+    let base_key = format!("{}|{}|{}|{}|{}", case["base"], case["gseed"], case["sections"], be, fvar);
     let applied = {
         let clean = secs.clone();
         let fields = || -> Rc<Fields> {
@@ -89,7 +100,8 @@ fn replay(case: &J) -> J {
                 c.entry(base_key.clone())
                     .or_insert_with(|| {
                         let mut fcfg = cfg_of(case, addrs, nbytes);
-                        fcfg.seed = cfg.seed % 4;
+                        fcfg.seed = fvar;
+                        fcfg.sample = fvar;
                         Rc::new(discover_fields(&clean, endian, &fcfg, case))
                     })
                     .clone()
